@@ -1956,20 +1956,24 @@ def rule_memcopy(rows, prop, files):
             continue
         short = r["fn"].split("::")[-1]
         pnames = [p_["name"] for p_ in r["params"]]
-        is_assign = short == "operator=" and pnames == ["other"]
-        is_cctor = r.get("class") and pnames == ["other"] and (short == r["class"].split("::")[-1] or short.startswith(r["class"].split("::")[-1] + "<"))
+        cls_short = r.get("class", "").split("::")[-1]
+        # the single parameter is an object of the class itself (whatever it is called)
+        same_class_param = len(r["params"]) == 1 and pnames[0] and cls_short and re.search(r"\b" + re.escape(cls_short) + r"\b", r["params"][0].get("type", ""))
+        is_assign = short == "operator=" and same_class_param
+        is_cctor = r.get("class") and same_class_param and (short == cls_short or short.startswith(cls_short + "<"))
         if not (is_assign or is_cctor):
             continue
+        OTHER = "$" + pnames[0]
         first_other = None
         for f in r["facts"]:
-            if "$other" in f["a"] + f["b"] and f.get("line") is not None:
+            if OTHER in f["a"] + f["b"] and f.get("line") is not None:
                 first_other = f["line"] if first_other is None else min(first_other, f["line"])
         for f in r["facts"]:
             if f["k"] == "assign":
                 ml = re.match(r"(?:nmtools::)?(?:at\()?this\.(\w+)", f["a"])
                 if not ml:
                     continue
-                mr = re.findall(r"\$other\.(\w+)", f["b"])
+                mr = re.findall(re.escape(OTHER) + r"\.(\w+)", f["b"])
                 if mr:
                     n += 1
                     if any(x != ml.group(1) for x in mr):
@@ -1980,7 +1984,7 @@ def rule_memcopy(rows, prop, files):
                     n += 1
                     findings.append(finding("R-MEMCOPY.selfassign", prop, r, "%s = %s" % (f["a"], f["b"]), "operator= writes member '%s' of *this before it first reads `other`: x = x then sees the modified object (self-assignment is not harmless)" % ml.group(1), f.get("line")))
             elif f["k"] == "ctorinit" and is_cctor:
-                mr = re.findall(r"\$other\.(\w+)", f["b"])
+                mr = re.findall(re.escape(OTHER) + r"\.(\w+)", f["b"])
                 if mr:
                     n += 1
                     if any(x != f["a"] for x in mr) and f["a"] != "<base>":
